@@ -1,10 +1,12 @@
 //go:build verif
 
-package config
+package config_test
 
 import (
 	"encoding/json"
 	"fmt"
+	"github.com/mdlayher/corerad/internal/config"
+	"github.com/mdlayher/corerad/verifrt/ref"
 	"net/netip"
 	"strings"
 	"testing"
@@ -32,18 +34,18 @@ var c03Keys = []c03Key{
 
 type c03Case struct {
 	Devs  []string      `json:"deviations"`
-	Doc   vDoc          `json:"document"`
+	Doc   ref.Doc       `json:"document"`
 	Clock time.Duration `json:"clock_after_epoch"`
 }
 
-func c03Base(dep bool, wild bool) vDoc {
-	d := vDoc{Ifaces: []vIface{{
-		Scalars: vTable{"name": "eth0", "advertise": true, "mtu": 1500, "captive_portal": "https://example.com/portal"},
-		Prefix:  []vTable{{"prefix": "2001:db8::/64"}},
-		Route:   []vTable{{"prefix": "2001:db8:ffff::/48"}},
-		RDNSS:   []vTable{{"servers": []string{"2001:db8::1"}}},
-		DNSSL:   []vTable{{"domain_names": []string{"example.com", "lan.example.org"}}},
-		PREF64:  []vTable{{}},
+func c03Base(dep bool, wild bool) ref.Doc {
+	d := ref.Doc{Ifaces: []ref.Iface{{
+		Scalars: ref.Table{"name": "eth0", "advertise": true, "mtu": 1500, "captive_portal": "https://example.com/portal"},
+		Prefix:  []ref.Table{{"prefix": "2001:db8::/64"}},
+		Route:   []ref.Table{{"prefix": "2001:db8:ffff::/48"}},
+		RDNSS:   []ref.Table{{"servers": []string{"2001:db8::1"}}},
+		DNSSL:   []ref.Table{{"domain_names": []string{"example.com", "lan.example.org"}}},
+		PREF64:  []ref.Table{{}},
 	}}}
 	if dep {
 		d.Ifaces[0].Prefix[0]["deprecated"] = true
@@ -57,7 +59,7 @@ func c03Base(dep bool, wild bool) vDoc {
 	return d
 }
 
-func c03Set(d *vDoc, k c03Key, v string) {
+func c03Set(d *ref.Doc, k c03Key, v string) {
 	i := &d.Ifaces[0]
 	switch k.Kind {
 	case "":
@@ -73,7 +75,7 @@ func c03Set(d *vDoc, k c03Key, v string) {
 	}
 }
 
-var c03State = vfState{
+var c03State = ref.State{
 	Name:       "eth0",
 	Addrs:      nil,
 	MAC:        "02:00:00:00:00:01",
@@ -82,7 +84,7 @@ var c03State = vfState{
 }
 
 func init() {
-	c03State.Addrs = append(c03State.Addrs, ip("2001:db8:1::1/64", "F"), ip("fe80::1/64", ""), ip("fd00:1::1/64", ""))
+	c03State.Addrs = append(c03State.Addrs, ref.IP("2001:db8:1::1/64", "F"), ref.IP("fe80::1/64", ""), ref.IP("fd00:1::1/64", ""))
 }
 
 func trunc(d, unit time.Duration) time.Duration { return d - d%unit }
@@ -104,13 +106,13 @@ func c03Field(name string, built, decoded, unit, max time.Duration) (string, str
 func c03Check(c c03Case) [][2]string {
 	text := c.Doc.TOML()
 	var (
-		cfg *Config
+		cfg *config.Config
 		err error
 		pv  any
 	)
 	func() {
 		defer func() { pv = recover() }()
-		cfg, err = Parse(strings.NewReader(text), c02Epoch)
+		cfg, err = config.Parse(strings.NewReader(text), c02Epoch)
 	}()
 	if pv != nil {
 		return [][2]string{{"C03:parse-panic", fmt.Sprint(pv)}}
@@ -130,7 +132,7 @@ func c03Check(c c03Case) [][2]string {
 		}
 		st := c03State
 		st.Clock = c.Clock
-		vfInject(&ifi, &st, c02Epoch)
+		ref.Inject(&ifi, &st, c02Epoch)
 		var ra *ndp.RouterAdvertisement
 		func() {
 			defer func() { pv = recover() }()
@@ -253,15 +255,13 @@ func TestVerifC03(t *testing.T) {
 		}
 		return
 	}
-	idx := 0
 	accepted := int64(0)
-	one := func(devs []string, d vDoc, clock time.Duration) {
-		idx++
-		if !r.Mine(idx) {
+	one := func(devs []string, d ref.Doc, clock time.Duration) {
+		if !r.MineKey(fmt.Sprintf("%s@%s", d.TOML(), clock)) {
 			return
 		}
 		c := c03Case{Devs: devs, Doc: d, Clock: clock}
-		_, err := Parse(strings.NewReader(d.TOML()), c02Epoch)
+		_, err := config.Parse(strings.NewReader(d.TOML()), c02Epoch)
 		if err == nil {
 			accepted++
 		}
